@@ -178,6 +178,7 @@ def install(R):
         mk_fs(st, "0")
         st.ghost["calls_n"] = SV("z3", z3.Int("calls_n@0"))
         st.ghost["calls_kw"] = SV("z3", z3.Const("calls_kw@0", z3.ArraySort(Int, V)))
+        st.ghost["calls_fn"] = SV("z3", z3.Const("calls_fn@0", z3.ArraySort(Int, V)))      # which callable each logged call invoked
     S["__init_ghost__"] = init_ghost
 
     def havoc_ghost(eng, st, which):
@@ -186,6 +187,7 @@ def install(R):
         if which in ("*", "calls"):
             st.ghost["calls_n"] = SV("z3", z3.Int(fresh_name("calls_n")))
             st.ghost["calls_kw"] = SV("z3", z3.Const(fresh_name("calls_kw"), z3.ArraySort(Int, V)))
+            st.ghost["calls_fn"] = SV("z3", z3.Const(fresh_name("calls_fn"), z3.ArraySort(Int, V)))
         if which in st.ghost and which not in ("FS", "calls"):
             old = st.ghost[which]
             st.ghost[which] = SV("z3", z3.Const(fresh_name(which), old.t.sort()))
@@ -361,6 +363,22 @@ def install(R):
     callret = z3.Function("callret", Int, V)
     R.symbols["callret"] = callret
 
+    def check_callee(eng, fr, spec, fv, node):
+        """`callee=(name, expr)` in a callable parameter's spec: every call of the parameter must invoke exactly that callable"""
+        if not spec.get("callee"):
+            return
+        name, text = spec["callee"]
+        import ast as _ast
+        sf = fr.sub(spec=True)
+        try:
+            want = eng.ev(_ast.parse(text, mode="eval").body, sf)
+            goal = eng.as_V(fv) == eng.as_V(want)
+        except Unsupported as e:
+            fr.st.add_taint(f"callee clause not evaluable: {e}")
+            goal = z3.BoolVal(False)
+        eng.emit(sf, name, goal, kind="call", line=getattr(node, "lineno", None))
+    S["__check_callee__"] = check_callee
+
     def call_value(eng, fr, fv, args, kwargs, node):
         """Call of a callable *parameter* (the user's function): appended to the ghost call log
         (calls_kw[calls_n] := keyword mapping; calls_n += 1); returns callret(index); may raise."""
@@ -380,6 +398,7 @@ def install(R):
         spec = c.fn_params[pname]
         st = fr.st
         g = st.ghost
+        check_callee(eng, fr, spec, fv, node)
         n = g["calls_n"].t
         if "**" in kwargs and len(kwargs) == 1:
             kw = eng.as_V(kwargs["**"])
@@ -391,6 +410,11 @@ def install(R):
                 else:
                     kw = T.mput(kw, T.VStr(z3.StringVal(k_)), eng.as_V(v_))
         g["calls_kw"] = SV("z3", z3.Store(g["calls_kw"].t, n, kw))
+        if "calls_fn" in g:
+            try:
+                g["calls_fn"] = SV("z3", z3.Store(g["calls_fn"].t, n, eng.as_V(fv)))
+            except Exception:
+                g["calls_fn"] = SV("z3", z3.Const(fresh_name("calls_fn"), z3.ArraySort(Int, V)))
         g["calls_n"] = SV("z3", n + 1)
         line = getattr(node, "lineno", None)
         ev = Event("call", "fn:" + pname, args, kwargs, line, extra={"index": n, "kw": kw})
@@ -422,6 +446,11 @@ def install(R):
     def call_kw(eng, fr, i):
         return mk_V(z3.Select(fr.st.ghost["calls_kw"].t, eng.as_int(i, fr)))
     S["call_kw"] = call_kw
+
+    def call_fn(eng, fr, i):
+        """the callable that the i-th logged call invoked"""
+        return mk_V(z3.Select(fr.st.ghost["calls_fn"].t, eng.as_int(i, fr)))
+    S["call_fn"] = call_fn
 
     def call_ret(eng, fr, i):
         return mk_V(callret(eng.as_int(i, fr)))
